@@ -1,11 +1,11 @@
 #!/bin/bash
 # tools/import_seeded.sh CNN   copies the sub-agent's deliverables from /tmp/wt/CNN into /verif/seeded/CNN-{1,2}/ and confirms them
 set -u
-id="$1"; w=/tmp/wt/$id
+id="$1"; w=${2:-/tmp/wt}/$id; off=${3:-0}
 export GOFLAGS=-mod=mod GOPROXY=off GOSUMDB=off GOTOOLCHAIN=local
-for i in 1 2; do
+for i in 1 2 3; do
   [ -f $w/change$i.diff ] || continue
-  d=/verif/seeded/$id-$i; mkdir -p $d
+  d=/verif/seeded/$id-$((i+off)); mkdir -p $d
   cp $w/change$i.diff $d/patch.diff; cp $w/demo${i}_test.go.txt $d/demo_test.go.txt 2>/dev/null
   cp $w/SEEDED.md $d/SEEDED.md 2>/dev/null
   # confirmation in a scratch worktree (never in /repo)
@@ -17,7 +17,7 @@ for i in 1 2; do
   rm -f $s/zz_seeded_demo_test.go
   suite=$(cd $s && go test -vet=off -count=1 ./... 2>&1 | grep -E "^(ok|FAIL|---)" | head -3 | tr '\n' ' ')
   git -C /repo worktree remove --force $s
-  echo "$id-$i: apply=$ap | demo on clean tree: $clean | demo with change: $withc | suite with change: $suite"
+  echo "$id-$((i+off)): apply=$ap | demo on clean tree: $clean | demo with change: $withc | suite with change: $suite"
   python3 - "$d" "$id" "$clean" "$withc" "$suite" <<'PY'
 import json,sys
 d,pid,clean,withc,suite=sys.argv[1:6]
